@@ -558,6 +558,22 @@ def run_cover_item(item, col):
                                     "candidates": facts["cand"], "chunk_sizes": facts["chunk_sizes"]})
 
 
+def run_cover_large_item(item, col):
+    """Sparse probe far above the enumerated sizes: P one-row plates (ids beyond 255), the first `observed` of them observed;
+    every chunk of a few chunk counts, with and without a batch - the same judgement as the small cover items."""
+    P, n_obs = item["plates"], item["observed"]
+    spec = {"sizes": [1] * P, "variant": "alt", "obs": [1 if j < n_obs else 0 for j in range(P)]}
+    ctx = Ctx(spec)
+    score_of = {ctx.pid[j]: float((j * 37) % 101) - 50.0 for j in range(P)}
+    un = [i for i in ctx.all_ids if i not in ctx.observed_ids]
+    for batch in (None, [un[-1], un[3]]):
+        for n_chunks in item["n_chunks"]:
+            holders, facts = cover_once(ctx, batch, n_chunks, score_of, col)
+            col.outcome("cover-large", P, n_chunks, None if facts is None else tuple(facts["chunk_sizes"]))
+            if facts is not None and facts["nontrivial"]:
+                col.nontriv("cover-large", P, batch, n_chunks)
+
+
 # ------------------------------------------------------------------ kind: select
 def assignments(cand, first=None):
     n = len(cand)
@@ -927,6 +943,9 @@ def plan(tier, seed):
             cc = (1, 2, 3) if (quick and sc == "random" and P == 3) else (1, 2, 3, 4)
             items += _grouped("real", {"sizes": SELECT_SIZES[P], "variant": "alt"}, P, {"scorer": sc},
                               3 if sc == "random" else 99, False, cc)
+    # sparse probes: hundreds of plates (plate ids beyond one byte), few per chunk
+    items.append({"kind": "cover-large", "plates": 300, "observed": 20, "n_chunks": [1, 2, 3, 7]})
+    items.append({"kind": "cover-large", "plates": 700, "observed": 1, "n_chunks": [3, 50]})
     # CLI
     items.append({"kind": "cli", "plates": [1, 2, 3], "full": not quick})
     return items
@@ -936,6 +955,8 @@ def run_item(item, col, tier):
     kind = item["kind"]
     if kind == "cover":
         run_cover_item(item, col)
+    elif kind == "cover-large":
+        run_cover_large_item(item, col)
     elif kind == "select":
         run_select_item(item, col, tier)
     elif kind == "real":
